@@ -96,4 +96,79 @@ theorem applyCall_perm (f : Fn) (c : Col) (ps ps' : List Pt) (h : ps.Perm ps')
 
 example : applyCall .first .fb [(3, 1), (5, 0), (3, 0)] = applyCall .first .fb [(3, 0), (3, 1), (5, 0)] := by decide
 
+/-! ### the two rules the code has for `first` of a boolean -/
+
+/-- the executor (`BooleanFirstMerge`: false wins) and the tag-set cursor / statistics shortcut
+(`UpdateBooleanFirst`, `firstMeta`: true wins, `Fn.firstC`) give the same answer on every bucket. -/
+def first_bool_path_independent_full : Prop :=
+  ∀ ps : List Pt, applyCall .first .fb ps = applyCall .firstC .fb ps
+
+/-- they do not: two series with the values true and false at the first timestamp of the bucket.
+Which rule is applied depends on how the series are spread over readers (finding
+`first-bool-ties`; the repair of the cursor's rule is blocked by the repository's own
+`TestAggQueryOnlyInImmutable_NoEmpty`). -/
+theorem first_bool_path_independent_full_fails : ¬ first_bool_path_independent_full := by
+  intro h
+  have := h [(3, 1), (3, 0)]
+  revert this
+  decide
+
+theorem foldl_pick_mem (f : Fn) (isBool : Bool) (ps : List Pt) (p : Pt) :
+    ps.foldl (pick f isBool) p ∈ p :: ps := by
+  induction ps generalizing p with
+  | nil => simp
+  | cons q qs ih =>
+    simp only [List.foldl_cons]
+    have := ih (pick f isBool p q)
+    simp only [List.mem_cons] at this ⊢
+    unfold pick at this ⊢
+    split at this <;> rcases this with h | h <;> simp_all
+
+theorem foldl_pick_congr (ps : List Pt) (p : Pt) (S : List Pt)
+    (hS : ∀ a ∈ S, ∀ b ∈ S, Fn.better .first true a b = Fn.better .firstC true a b)
+    (hp : p ∈ S) (hps : ∀ x ∈ ps, x ∈ S) :
+    ps.foldl (pick .first true) p = ps.foldl (pick .firstC true) p := by
+  induction ps generalizing p with
+  | nil => rfl
+  | cons q qs ih =>
+    simp only [List.foldl_cons]
+    have hq : q ∈ S := hps q (by simp)
+    have e : pick .first true p q = pick .firstC true p q := by
+      unfold pick; rw [hS p hp q hq]
+    rw [e]
+    apply ih
+    · unfold pick; split <;> assumption
+    · intro x hx; exact hps x (by simp [hx])
+
+/-- **partial**: where no two points of the bucket share a timestamp with different values the
+two rules agree. -/
+theorem first_bool_path_independent_partial (ps : List Pt)
+    (h : ∀ a ∈ ps, ∀ b ∈ ps, a.1 = b.1 → a.2 = b.2) :
+    applyCall .first .fb ps = applyCall .firstC .fb ps := by
+  have hS : ∀ a ∈ ps, ∀ b ∈ ps, Fn.better .first true a b = Fn.better .firstC true a b := by
+    intro a ha b hb
+    have := h a ha b hb
+    simp only [Fn.better, if_true, OG.Gen.C08.boolFirstTakes, OG.Gen.C08.firstTakes]
+    by_cases e : b.1 = a.1
+    · have e2 : a.2 = b.2 := this e.symm
+      simp [e, e2]
+    · have e' : (b.1 == a.1) = false := by simpa using e
+      simp [e']
+  cases ps with
+  | nil => rfl
+  | cons p ps =>
+    have hsel : selectPt .first true (p :: ps) = selectPt .firstC true (p :: ps) := by
+      simp only [selectPt]
+      rw [foldl_pick_congr ps p (p :: ps) hS (by simp) (fun x hx => by simp [hx])]
+    simp only [applyCall]
+    show (match selectPt Fn.first (Col.fb == Col.fb) (p :: ps) with
+        | some p => (Val.int p.2, some p.1) | none => (Val.null, none))
+      = (match selectPt Fn.firstC (Col.fb == Col.fb) (p :: ps) with
+        | some p => (Val.int p.2, some p.1) | none => (Val.null, none))
+    have hb : (Col.fb == Col.fb) = true := by decide
+    rw [hb, hsel]
+
+example : applyCall .first .fb [(3, 1), (3, 0)] = (.int 0, some 3) := by decide
+example : applyCall .firstC .fb [(3, 1), (3, 0)] = (.int 1, some 3) := by decide
+
 end OG.C08
